@@ -26,6 +26,10 @@ SPECIAL_TOL = {
     ("mediumPressureNp", "der_p_m1"): ("rel", 1e-8),
     ("mediumPressureNumba", "p_m"): ("rel", 1e-9), ("mediumPressureNumba", "der_p_m"): ("rel", 1e-8),
     ("mediumPressureNumba", "der_p_m1"): ("rel", 1e-8),
+    ("gasPressuresNumba", "p_abs_mean"): ("rel", 1e-9), ("gasResultsNp", "p_abs_mean"): ("rel", 1e-9),
+    ("gasResultsNumba", "p_abs_mean"): ("rel", 1e-9), ("gasResultsNp", "normfactor_mean"): ("rel", 1e-9),
+    ("gasResultsNumba", "normfactor_mean"): ("rel", 1e-9), ("gasResultsNp", "v_gas_mean"): ("rel", 1e-9),
+    ("gasResultsNumba", "v_gas_mean"): ("rel", 1e-9),
     ("thermalBranchNp", "fb"): ("abs", 1e-12, ["t_init_i", "t_init_i1"]),
     ("thermalBranchNumba", "fb"): ("abs", 1e-12, ["t_init_i", "t_init_i1"]),
 }
@@ -96,7 +100,27 @@ def make_inputs(rng, n, meta):
         "p_abs_to": npit[1::2, inode.PINIT] + npit[1::2, inode.PAMB],
     }
     named["p_abs_mean"] = (named["p_abs_from"] + named["p_abs_to"]) / 2
+    # reverse-flow flags for the gas post-processing twins (own generator: the draws above stay what they were)
+    bp[:, ib.FROM_NODE_T_SWITCHED] = (np.random.default_rng(977 + n).random(n) < 0.35).astype(float)
+    named["net"] = None
     return bp, npit, named
+
+
+Z_COEF = (0.97, -2.5e-3, 1.5e-4)     # stand-in compressibility  Z(p, T) = c0 + c1 p + c2 T
+
+
+class _FakeProp:
+    allow_2d = True
+
+
+class _FakeFluid:
+    """stand-in for the net's fluid in the gas post-processing functions: an affine compressibility in (p, T)"""
+    is_gas = True
+    all_properties = {"compressibility": _FakeProp()}
+
+    @staticmethod
+    def get_compressibility(p, t=None):
+        return Z_COEF[0] + Z_COEF[1] * p + Z_COEF[2] * (t if t is not None else 0.0)
 
 
 def call_python(meta, bp, npit, named):
@@ -110,7 +134,14 @@ def call_python(meta, bp, npit, named):
             raise KeyError("no generated input for python parameter %s of %s" % (p, meta["pyfunc"]))
         v = named[p]
         args.append(v.copy() if isinstance(v, np.ndarray) else v)
-    res = fn(*args)
+    saved = getattr(mod, "get_fluid", None) if "net" in sig.parameters else None
+    if saved is not None:
+        mod.get_fluid = lambda net: _FakeFluid
+    try:
+        res = fn(*args)
+    finally:
+        if saved is not None:
+            mod.get_fluid = saved
     if not isinstance(res, tuple):
         res = (res,)
     # map outputs by the names in the python return statement
@@ -148,6 +179,8 @@ def check_kernel(driver, rng, meta, n):
             key = nm if nm in named else nm + "_"
             v = named[key]
             vals.append(float(v[i]) if isinstance(v, np.ndarray) else float(v))
+        for _ in meta.get("fn_params", []):
+            vals.extend(Z_COEF)
         lines.append("kernel %s %s" % (meta["lean_name"], " ".join(f2hex(v) for v in vals)))
     out = driver.run(lines)
     tol = ULP_NB if "numba" in meta["pyfile"] or meta["pyfunc"].endswith("numba") else ULP_NP
@@ -186,7 +219,11 @@ def run(seed, n_per_kernel):
     """returns (disagreements, stats)"""
     rng = np.random.default_rng(seed)
     driver = LeanDriver()
-    metas = gen_meta()["kernels"]
+    metas = list(gen_meta()["kernels"])
+    np_meta = [m for m in metas if m["lean_name"] == "gasResultsNp"]
+    if np_meta:
+        # hand-written glue `Model/GasResults.gasResultsNumba` against the real numba wrapper (same layout as the numpy twin)
+        metas.append(dict(np_meta[0], lean_name="gasResultsNumba", pyfunc="get_branch_results_gas_numba"))
     bad_all, stats = [], {}
     for meta in metas:
         try:
